@@ -32,7 +32,7 @@ void vt_end(void) { if (tf) { fputs("}\n", tf); fflush(tf); } pthread_mutex_unlo
 
 // ---------------- entropy ----------------
 typedef struct {
-	uint64_t s; long draws, bytes, fail_at, pos; int failed, log; const char *tag;
+	uint64_t s; long draws, bytes, fail_at, pos, nfail; int failed, log; const char *tag;
 	ENT_DRAW ring[256];
 } ENT;
 static __thread ENT ent = { .s = 0x9e3779b97f4a7c15ULL };
@@ -46,6 +46,7 @@ void ent_reset_counters(void) { ent.draws = ent.bytes = 0; ent.failed = 0; }
 long ent_draws(void) { return ent.draws; }
 long ent_bytes(void) { return ent.bytes; }
 int ent_failed(void) { return ent.failed; }
+long ent_failures(void) { return ent.nfail; }
 void ent_log(int on) { ent.log = on; }
 void ent_tag(const char *t) { ent.tag = t; }
 const ENT_DRAW *ent_get(long i) { if (i < 1 || i > ent.draws || ent.draws - i >= 256) return NULL; return &ent.ring[i & 255]; }
@@ -57,7 +58,7 @@ int getentropy(void *buf, size_t len)
 	ENT_DRAW *d = &ent.ring[ent.draws & 255];
 	d->idx = ent.draws; d->pos = ent.pos; d->len = len; d->failed = 0;
 	if (ent.fail_at && ent.draws == ent.fail_at) {
-		ent.failed = 1; d->failed = 1;
+		ent.failed = 1; ent.nfail++; d->failed = 1;
 		if (ent.log) { vt_begin("Draw"); vt_str("who", ent.tag ? ent.tag : "-"); vt_int("i", ent.draws); vt_int("n", (long)len); vt_int("ok", 0); vt_end(); }
 		errno = EIO; return -1;
 	}
